@@ -849,6 +849,31 @@ func vFrameRandStream(r *vRand, maxLen, maxPkts int) (string, int, []int) {
 	return strings.Join(ps, ","), total, lens
 }
 
+// vFrameOversizeMid inserts, at a random position of the stream, a frame the 8192-byte readers cannot take:
+// either a complete frame of 8193 / 9000 bytes (pseudo-random body) or only the 2-byte header of one
+// (8193..65535), so that the well-formed frames that follow stand where its body would be.  A reader that
+// does not stop at the oversized frame delivers packets that were never sent.
+func vFrameOversizeMid(r *vRand, ps string, total int) (string, int) {
+	var parts []string
+	if ps != "-" {
+		parts = strings.Split(ps, ",")
+	}
+	var ins string
+	if r.chance(1, 3) {
+		l := vFramePick(r, []int{8193, 9000})
+		ins = fmt.Sprintf("f%d.%d", l, r.intn(256))
+		total += 2 + l
+	} else {
+		l := vFramePick(r, []int{8193, 8194, 9000, 16384, 65535, 8193 + r.intn(57342)})
+		ins = "x" + hex.EncodeToString([]byte{byte(l >> 8), byte(l)})
+		total += 2
+	}
+	at := r.intn(len(parts) + 1)
+	out := append(append(append([]string{}, parts[:at]...), ins), parts[at:]...)
+
+	return strings.Join(out, ","), total
+}
+
 func vFrameKeep(r *vRand, total int) string {
 	if total == 0 || r.chance(3, 5) {
 		return "all"
@@ -1033,6 +1058,9 @@ func vFrameGenOps(o *vOut, r *vRand, thorough bool, _ []string, emit func(string
 			}
 			total += 2 + l
 		}
+		if i%11 == 4 {
+			ps, total = vFrameOversizeMid(r, ps, total)
+		}
 		emit(fmt.Sprintf("frame tpc %s %s %s %s", vFramePick2(r, vFrameEnds), ps, vFrameKeep(r, total), vFrameCuts(r, total)))
 	}
 
@@ -1046,6 +1074,9 @@ func vFrameGenOps(o *vOut, r *vRand, thorough bool, _ []string, emit func(string
 		first := vFrameFirstSTUN(sizes[i%len(sizes)])
 		fh := hex.EncodeToString(append([]byte{byte(len(first) >> 8), byte(len(first))}, first...))
 		ps, total, _ := vFrameRandStream(r, 1200, 4)
+		if i%6 == 5 {
+			ps, total = vFrameOversizeMid(r, ps, total)
+		}
 		total += len(first) + 2
 		keep := vFrameKeep(r, total)
 		if i%7 == 3 {
@@ -1065,6 +1096,9 @@ func vFrameGenOps(o *vOut, r *vRand, thorough bool, _ []string, emit func(string
 			maxLen = 8192
 		}
 		ps, total, _ := vFrameRandStream(r, maxLen, 6)
+		if i%5 == 2 {
+			ps, total = vFrameOversizeMid(r, ps, total)
+		}
 		emit(fmt.Sprintf("frame atc %s %s %s", ps, vFrameKeep(r, total), vFrameCuts(r, total)))
 	}
 }
